@@ -1,7 +1,12 @@
+mod catalogue;
 mod common;
+mod eng_c07;
 mod eng_c08;
 mod eng_c20;
+mod eng_wire;
 mod peer;
+mod typed;
+mod val;
 
 use common::Cfg;
 
@@ -18,6 +23,10 @@ fn main() {
         replay: args.get(5).cloned(),
     };
     match args[1].as_str() {
+        "C01" => eng_wire::run(&cfg, eng_wire::Mode::C01),
+        "C02" => eng_wire::run(&cfg, eng_wire::Mode::C02),
+        "C03" => eng_wire::run(&cfg, eng_wire::Mode::C03),
+        "C07" => eng_c07::run(&cfg),
         "C08" => eng_c08::run(&cfg),
         "C20" => eng_c20::run(&cfg),
         other => {
